@@ -25,6 +25,10 @@ def generate(rng, tier):
     # large requests (a size-dependent code path would show here), each with a smaller request for the prefix property
     for (n, d) in [(128, 129)] + ([(256, 64), (200, 200), (256, 256)] if tier == "thorough" else []):
         cases.append({"op": "init", "n": n, "d": d, "seed": str(rng.getrandbits(64)), "smaller": rng.randint(1, 12), "big": True})
+    # the largest documented request (2^16 entries) and one above 2^15: checked against the replayed draw stream and the
+    # prefix property by the oracle only (the literal is too long for the model's list walk in the quick tier)
+    for (n, d) in [(256, 256), (182, 182)]:
+        cases.append({"op": "init", "n": n, "d": d, "seed": str(rng.getrandbits(64)), "smaller": rng.randint(1, 5), "big": True, "huge": True})
     while len(cases) < n_cases:
         n = rng.randint(0, 256) if rng.random() < 0.3 else rng.randint(0, 24)
         d = rng.randint(0, 256) if rng.random() < 0.3 else rng.randint(0, 24)
@@ -50,7 +54,7 @@ def run_impl(cases):
 
 
 def coq_term(case, out):
-    if "panic" in out:
+    if "panic" in out or case.get("huge"):
         return None
     if case.get("big"):
         return "init64_eval %s %s %s" % (C.zlist(out["draws"]), C.natlit(case["n"]), C.natlit(case["d"]))
@@ -60,7 +64,7 @@ def coq_term(case, out):
 
 
 def impl_flat(case, out):
-    if "panic" in out:
+    if "panic" in out or case.get("huge"):
         return None
     if case.get("big"):
         return out["f64"]
